@@ -289,7 +289,7 @@ def prod_inputs(rng, tier):
     # later chunks of many sizes: every interesting (low, high) pair of radix-253 header digits
     lows = [0, 1, 0xFC, 0xF1, 0x80] if tier == "quick" else [0, 1, 2, 0x7F, 0x80, 0xF1, 0xFC]
     highs = [0, 1, 0x0E] if tier == "quick" else [0, 1, 2, 0x0E, 0x7F, 0x80, 0xFC]
-    sizes = sorted({lo + 253 * hi for lo in lows for hi in highs if lo + 253 * hi < L2P})
+    sizes = sorted({lo + 253 * hi for lo in lows for hi in highs if lo + 253 * hi < L2P} | {253 * 237, 253 * 252})
     group, total = [], 0
     for sz in sizes + [None]:
         if sz is None or total + sz > 90000:
@@ -420,6 +420,12 @@ def run_prod(res, work, tier, seed):
         inp += _filler(300, rng) + [FE, FD]
     scripted.append((inp, [{"ev": "feed", "m": "borrow", "n": -1}, {"ev": "finish"}]))
     dec_scripts[len(scripted) - 1] = [{"ev": "feed", "m": "borrow", "n": -1}, {"ev": "finish"}]
+    for k in (1, 3, 4, 6, 12, 63):
+        inp = _filler(600, rng)
+        ops = [{"ev": "feed", "m": "copy", "n": k} for _ in range(600 // k + 1)]
+        for j in range(len(ops) - 1, 0, -7):
+            ops.insert(j, {"ev": "drain", "mode": "slices", "n": 1})
+        scripted.append((inp, ops + [{"ev": "feed", "m": "copy", "n": -1}, {"ev": "finish"}]))
     for n in (3000, 200, 6000):
         inp = _filler(n, rng)
         scripted.append((inp, [{"ev": "feed", "m": "split", "n": -1}, {"ev": "drain", "mode": "read", "n": 10 ** 6}, {"ev": "finish"}]))
